@@ -32,6 +32,7 @@ def verify_functions(qualnames, repo=None, second_backend=False, th=None, reg=No
             obls = ex.verify()
             info['obligations'] = obls
             info['pre_hyps'] = ex.pre_hyps
+            info['vac_points'] = [('%s: %s' % (q, lab), h) for lab, h in ex.vac_points]
             allobls.extend(obls)
         except OutOfSubset as exc:
             info['status'] = 'out-of-subset'
@@ -40,10 +41,20 @@ def verify_functions(qualnames, repo=None, second_backend=False, th=None, reg=No
             info['status'] = 'proof-lost'
             info['reason'] = str(exc)
     solve.discharge(th, allobls, second_backend=second_backend)
+    vpoints = [p for info in report.values() for p in info.get('vac_points', [])]
+    vres = solve.vacuity(th, vpoints)
+    vac_bad = {}
+    for label, ok, verdict, dt in vres:
+        if not ok:
+            vac_bad.setdefault(label.split(': ')[0], []).append(label)
     for q, info in report.items():
+        info['vacuity_checked'] = len(info.get('vac_points', []))
         if info['status'] is None:
             obls = info['obligations']
-            if not obls:
+            if q in vac_bad:
+                info['status'] = 'vacuous'
+                info['reason'] = 'contradictory hypotheses at: ' + '; '.join(vac_bad[q])
+            elif not obls:
                 info['status'] = 'no-obligations'
             elif all(o.status == 'unsat' for o in obls):
                 info['status'] = 'proved'
@@ -59,6 +70,15 @@ def main(argv):
         print('==', q, info['status'], info.get('reason', ''))
         for o in info['obligations']:
             print('   %-8s %-7s %6.2fs  %s  %s' % (o.status, o.kind, o.seconds, o.id, o.text[:110]))
+            if os.environ.get('PYVC_DEBUG') and (o.seconds > 1.5 or o.status != 'unsat'):
+                for r in getattr(o, 'trace', []):
+                    print('        ', r)
+                if o.status != 'unsat':
+                    from .solve import light_split
+                    for (okp, v, b, pid), (_, g) in zip(o.parts1, light_split(th, o.goal)):
+                        print('        part', pid, okp, v, str(g)[:300].replace('\n', ' '))
+                    for pid, okp, rs in getattr(o, 'pieces', []):
+                        print('        piece', pid, okp, [(r[0], r[1]) for r in rs])
     print('total %.1fs' % (time.time() - t0))
 
 
